@@ -419,6 +419,16 @@ func (f *c01Fn) sites(file, fn string, body ast.Node) []c01Site {
 			lhsStore(s.X)
 		case *ast.CallExpr:
 			name := c01CallName(s)
+			// methods that announce an in-place update of their receiver (vector3.Array.ScaleInplace, …)
+			if sel, ok := c01Unparen(s.Fun).(*ast.SelectorExpr); ok {
+				if ln := strings.ToLower(sel.Sel.Name); strings.Contains(ln, "inplace") {
+					base := sel.X
+					if conv, ok := c01Unparen(base).(*ast.CallExpr); ok && len(conv.Args) == 1 {
+						base = conv.Args[0] // T(x).ScaleInplace(): the conversion shares x's array
+					}
+					add(s.Pos(), "inplace-call "+sel.Sel.Name, base, f.fresh(base))
+				}
+			}
 			switch {
 			case name == "append" && len(s.Args) > 0:
 				add(s.Pos(), "append", s.Args[0], f.fresh(s.Args[0]))
